@@ -5,6 +5,7 @@ CONSTANTS
   PathsC <- MCPaths
   WritesC <- MCWrites
   Victim = "R"
+  ConvertGuard = TRUE
   EphemeralIsRealm = FALSE
   MaxDepth = 4
   MaxFvals = 1
